@@ -377,6 +377,14 @@ def _neighbours(q, ans, rng):
                         ("cell_to_lonlat " if op != "cell_to_lonlat" else "cell_to_boundary_default ") + t[1]]
         elif op in ("cell_to_boundary", "cell_to_children", "cell_to_parent", "contains") and len(t) >= 3:
             out = [" ".join([op, str(x)] + t[2:]) for x in _id_neighbours(int(t[1]), rng)]
+            if op == "cell_to_children" and t[2] != "none":
+                # keep the neighbours' fan-out within what the model can enumerate (<= 4^9 cells)
+                from . import spec as _spec
+                R_ = int(t[2])
+                def small(x):
+                    d_ = _spec.decode(x)
+                    return d_ is not None and (R_ < d_[0] or R_ > 29 or _spec.fanout(d_[0], R_) <= 4 ** 9)
+                out = [q_ for q_ in out if small(int(q_.split()[1]))]
             if op == "cell_to_boundary" and len(t) == 4:
                 out += [f"cell_to_boundary_default {t[1]}", f"cell_to_boundary {t[1]} {1 - int(t[2])} {t[3]}",
                         f"cell_to_boundary {t[1]} {t[2]} {rng.choice([x for x in ('1', '2', '3', '7', 'none') if x != t[3]])}"]
@@ -455,8 +463,8 @@ def neighbour_pass(run, exe, requests, model, canon, label, isolate, timeout):
         if a == "lost":
             continue
         q, m = (requests[i], model[i]) if kind == "r" else (extra[i], emodel[i])
-        if m == "bad-op":
-            continue
+        if m in ("bad-op", "abort", "hang", "lost"):
+            continue          # the model process itself gave up (resources): no verdict
         ca, cb = (canon(q, a), canon(q, m)) if canon else (a, m)
         if ca != cb:
             bad += 1
@@ -508,7 +516,7 @@ def reordered_pass(run, exe, requests, model, canon, label, isolate, timeout):
                      per_line_timeout=60, max_hangs=3)
     bad = 0
     for k, (i, a) in enumerate(zip(back, out)):
-        if i is None or a == "lost":
+        if i is None or a == "lost" or model[i] in ("abort", "hang", "lost"):
             continue
         q = requests[i]
         ca, cb = (canon(q, a), canon(q, model[i])) if canon else (a, model[i])
@@ -775,6 +783,10 @@ class Run:
         self.corr_cases += len(requests)
         canon = canon or default_canon
         for i, (q, a, b) in enumerate(zip(requests, impl, model)):
+            if b in ("abort", "hang", "lost") and a not in ("abort", "hang", "lost", "panic"):
+                # the MODEL process ran out of memory / time on this request while the library answered: no verdict, but counted
+                self.extra["model_gave_up"] = self.extra.get("model_gave_up", 0) + 1
+                continue
             ca, cb = (canon(q, a), canon(q, b)) if canon else (a, b)
             if ca != cb:
                 self.corr_disagreements.append({"request": q, "impl": a[:2000], "model": b[:2000], "suite": label})
